@@ -23,7 +23,7 @@ ASSUMPTIONS = [
     "third decimal",
     "sensors whose bytes lie outside the fetched window of a block are C14's subject and skipped here for that block",
 ]
-MUST = ["sensor_and_setting_of_one_id", "values_checked", "footprint_checked", "noninterference_checked", "sentinel_hit", "shifted_window_checked",
+MUST = ["undecodable_neighbour_in_block", "single_sensor_reads_end_to_end", "sensor_and_setting_of_one_id", "values_checked", "footprint_checked", "noninterference_checked", "sentinel_hit", "shifted_window_checked",
         "end_to_end_values", "single_read_checked", "sensors_covered"]
 EXHAUSTIVE = {"quick": False, "thorough": False}
 
@@ -218,6 +218,10 @@ def end_to_end(spec, part):
             sim = models.dt_sim(tag=rnd.choice(("DTU", "MSU", "DSN")), rnd=rnd, style=style)
         else:
             sim = models.es_sim(rnd=rnd, style=style)
+        if fam != "ES" and rnd.random() < 0.3:
+            # an impossible date in the clock registers at the head of the block: every OTHER value must still be its documented reading
+            sim.set_bytes(35100 if fam == "ET" else 30100, bytes(rnd.choice(([24, 13, 1, 0, 0, 0], [0, 0, 0, 0, 0, 0], [24, 2, 31, 25, 61, 61], [255] * 6))))
+            part.count("undecodable_neighbour_in_block")
         if port == 502 and rnd.random() < 0.6:
             sim.mbap_len_bug = rnd.choice(("request", "bytecount"))     # known GoodWe quirk: the validator ignores that field on purpose
             part.count("tcp_wrong_mbap_length")
@@ -228,6 +232,18 @@ def end_to_end(spec, part):
             await inv.read_device_info()
             res["data"] = await inv.read_runtime_data()
             res["sensors"] = inv.sensors()
+            # single reads of a sample of the listed typed sensors (the individual read fetches the item's own registers only)
+            res["singles"] = []
+            if fam != "ES":
+                cand = [x for x in inv.sensors() if getattr(x, "size_", 0) > 0]
+                rnd.shuffle(cand)
+                big = [x for x in cand if getattr(x, "size_", 0) >= 4][:10]
+                for x in big + cand[:15]:
+                    try:
+                        v = await inv.read_sensor(x.id_)
+                    except ValueError:
+                        v = None
+                    res["singles"].append((x, v))
             # ids that name a runtime sensor AND a setting (different registers): single reads in either order
             res["shared"] = []
             if fam != "ES":
@@ -275,6 +291,22 @@ def end_to_end(spec, part):
             if not rs.same(got, want):
                 part.violate(f"C12/{fam}/{type(sn).__name__}/wrong-value-end-to-end",
                              f"{fam} port {port} {sn.id_}@{sn.offset}: registers {own.hex()} reported as {got!r}, documented reading {rs.show(want)}",
+                             {"e2e": True, "seed": spec["seed"], "i": i})
+        for sn, got in res.get("singles", []):
+            try:
+                span = rs.own_span(sn)
+                own = sim.get_bytes(sn.offset, (span + 1) // 2)[:span]
+                want = rs.ref_value(sn, own)
+            except rs.NoRef:
+                continue
+            except rs.Undecodable:
+                want = None
+            if len([x for x in res["sensors"] if x.id_ == sn.id_]) > 1:
+                continue            # (ids offered twice: which one a single read addresses is C16's subject)
+            part.count("single_sensor_reads_end_to_end")
+            if not rs.same(got, want):
+                part.violate(f"C12/{fam}/{type(sn).__name__}/wrong-value-end-to-end",
+                             f"{fam} port {port}: read_sensor('{sn.id_}') @{sn.offset}: registers {own.hex()} reported as {got!r}, documented reading {rs.show(want)}",
                              {"e2e": True, "seed": spec["seed"], "i": i})
         for which, sn, got, order in res.get("shared", []):
             try:
